@@ -14,12 +14,14 @@ def completed (mac : Mac) (ingress : Nat) (path : Path) : Path :=
 
 /-- **Leaving the AS** (packet from the internal network or a sibling router): forwarded exactly when
     the header decodes as a one-hop path in construction direction, the source is the local AS, the
+    `PayloadLen` equals the number of bytes after the header, the
     first hop's egress interface has a neighbour and that neighbour is the destination AS, and the first
     hop's MAC is the router's MAC over (SegID, timestamp, expiry, interfaces); it then leaves through the
     first hop's egress interface with the SegID updated. -/
 theorem ohp_out_iff (c : Cfg) (mac : Mac) (p : Pkt) (e : Nat) (q : Path) (h0 : p.ingress = 0) :
     process c mac p = .fwd e q ↔
-      ∃ path, decodeStage p = some path ∧ path.info.consDir = true ∧ p.srcIA = c.localIA ∧
+      ∃ path, decodeStage p = some path ∧ path.info.consDir = true ∧
+        p.payloadLen = p.dataLen - p.hdrBytes ∧ p.srcIA = c.localIA ∧
         c.nb path.first.consEgress ≠ 0 ∧ p.dstIA = c.nb path.first.consEgress ∧
         path.first.mac = hopMac mac path.info path.first ∧
         e = path.first.consEgress ∧ q = issued path := by
@@ -27,31 +29,36 @@ theorem ohp_out_iff (c : Cfg) (mac : Mac) (p : Pkt) (e : Nat) (q : Path) (h0 : p
   cases hd : decodeStage p with
   | none => simp
   | some path =>
-    simp only [h0, if_true]
     cases hc : path.info.consDir with
     | false => simp [hc]
     | true =>
-      simp only [Bool.true_eq_false, if_false, outStage]
-      constructor
-      · intro h
-        split at h
-        · cases h
-        · split at h
+      by_cases hpl : p.payloadLen = p.dataLen - p.hdrBytes
+      · simp only [hc, Bool.true_eq_false, if_false, hpl, ne_eq, not_true_eq_false, h0, if_true, outStage]
+        constructor
+        · intro h
+          split at h
           · cases h
           · split at h
             · cases h
             · split at h
               · cases h
-              · rename_i h1 h2 h3 h4
-                injection h with he hq
-                refine ⟨path, rfl, hc, ?_, h2, ?_, ?_, he.symm, hq.symm⟩
-                · exact (Decidable.not_not.mp h1).symm
-                · exact (Decidable.not_not.mp h3).symm
-                · exact Decidable.not_not.mp h4
-      · rintro ⟨path', hp, _, hs, hn, hd', hm, he, hq⟩
-        cases hp
-        rw [if_neg (by simp [hs]), if_neg hn, if_neg (by simp [hd']), if_neg (by simp [← hm])]
-        simp [he, hq, issued]
+              · split at h
+                · cases h
+                · rename_i h1 h2 h3 h4
+                  injection h with he hq
+                  refine ⟨path, rfl, hc, trivial, ?_, h2, ?_, ?_, he.symm, hq.symm⟩
+                  · exact (Decidable.not_not.mp h1).symm
+                  · exact (Decidable.not_not.mp h3).symm
+                  · exact Decidable.not_not.mp h4
+        · rintro ⟨path', hp, _, _, hs, hn, hd', hm, he, hq⟩
+          cases hp
+          rw [if_neg (by simp [hs]), if_neg hn, if_neg (by simp [hd']), if_neg (by simp [← hm])]
+          simp [he, hq, issued]
+      · simp only [hc, Bool.true_eq_false, if_false, ne_eq, hpl, not_false_eq_true, if_true]
+        constructor
+        · intro h; cases h
+        · rintro ⟨path', hp, _, hpl', _⟩
+          exact hpl'.elim
 
 /-- **Entering the AS** (packet received on an external interface): accepted exactly when the header
     decodes as a one-hop path in construction direction, the destination is the local AS, the source is
@@ -59,33 +66,39 @@ theorem ohp_out_iff (c : Cfg) (mac : Mac) (p : Pkt) (e : Nat) (q : Path) (h0 : p
     handed to the internal network with the second hop field filled in. -/
 theorem ohp_in_iff (c : Cfg) (mac : Mac) (p : Pkt) (e : Nat) (q : Path) (h0 : p.ingress ≠ 0) :
     process c mac p = .fwd e q ↔
-      ∃ path, decodeStage p = some path ∧ path.info.consDir = true ∧ p.dstIA = c.localIA ∧
+      ∃ path, decodeStage p = some path ∧ path.info.consDir = true ∧
+        p.payloadLen = p.dataLen - p.hdrBytes ∧ p.dstIA = c.localIA ∧
         p.srcIA = c.nb p.ingress ∧ p.resolves = true ∧ e = 0 ∧ q = completed mac p.ingress path := by
   unfold process
   cases hd : decodeStage p with
   | none => simp
   | some path =>
-    simp only [h0, if_false]
     cases hc : path.info.consDir with
     | false => simp [hc]
     | true =>
-      simp only [Bool.true_eq_false, if_false, inStage]
-      constructor
-      · intro h
-        split at h
-        · cases h
-        · split at h
+      by_cases hpl : p.payloadLen = p.dataLen - p.hdrBytes
+      · simp only [hc, Bool.true_eq_false, if_false, hpl, ne_eq, not_true_eq_false, h0, inStage]
+        constructor
+        · intro h
+          split at h
           · cases h
           · split at h
             · cases h
-            · rename_i h1 h2 h3
-              injection h with he hq
-              refine ⟨path, rfl, hc, (Decidable.not_not.mp h1).symm, (Decidable.not_not.mp h2).symm, ?_, he.symm, hq.symm⟩
-              cases hr : p.resolves <;> simp_all
-      · rintro ⟨path', hp, _, hdst, hs, hr, he, hq⟩
-        cases hp
-        rw [if_neg (by simp [hdst]), if_neg (by simp [hs]), if_neg (by simp [hr])]
-        simp [he, hq, completed]
+            · split at h
+              · cases h
+              · rename_i h1 h2 h3
+                injection h with he hq
+                refine ⟨path, rfl, hc, trivial, (Decidable.not_not.mp h1).symm, (Decidable.not_not.mp h2).symm, ?_, he.symm, hq.symm⟩
+                cases hr : p.resolves <;> simp_all
+        · rintro ⟨path', hp, _, _, hdst, hs, hr, he, hq⟩
+          cases hp
+          rw [if_neg (by simp [hdst]), if_neg (by simp [hs]), if_neg (by simp [hr])]
+          simp [he, hq, completed]
+      · simp only [hc, Bool.true_eq_false, if_false, ne_eq, hpl, not_false_eq_true, if_true]
+        constructor
+        · intro h; cases h
+        · rintro ⟨path', hp, _, hpl', _⟩
+          exact hpl'.elim
 
 /-- No one-hop packet is forwarded unless `HdrLen` covers exactly common header + addresses + 32 path
     bytes (header slack is rejected; repaired defect, see seeded/fixrevert-C18-hdrlen-slack). -/
@@ -112,9 +125,9 @@ theorem ohp_hdrlen_exact (c : Cfg) (mac : Mac) (p : Pkt) (e : Nat) (q : Path)
 theorem ohp_consdir (c : Cfg) (mac : Mac) (p : Pkt) (e : Nat) (q : Path)
     (h : process c mac p = .fwd e q) : q.info.consDir = true := by
   by_cases h0 : p.ingress = 0
-  · obtain ⟨path, _, hc, _, _, _, _, _, hq⟩ := (ohp_out_iff c mac p e q h0).mp h
+  · obtain ⟨path, _, hc, _, _, _, _, _, _, hq⟩ := (ohp_out_iff c mac p e q h0).mp h
     simp [hq, issued, updateSegID, hc]
-  · obtain ⟨path, _, hc, _, _, _, _, hq⟩ := (ohp_in_iff c mac p e q h0).mp h
+  · obtain ⟨path, _, hc, _, _, _, _, _, hq⟩ := (ohp_in_iff c mac p e q h0).mp h
     simp [hq, completed, hc]
 
 /-- **The second hop field is valid**: it names the receiving interface as ingress, no egress, the
@@ -126,7 +139,7 @@ theorem ohp_second_hop_valid (c : Cfg) (mac : Mac) (p : Pkt) (e : Nat) (q : Path
       q.second.consEgress = 0 ∧ q.second.exp = q.first.exp ∧
       q.second.ingAlert = false ∧ q.second.egAlert = false ∧
       ∃ path, decodeStage p = some path ∧ q.info = path.info ∧ q.first = path.first := by
-  obtain ⟨path, hd, _, _, _, _, _, hq⟩ := (ohp_in_iff c mac p e q h0).mp h
+  obtain ⟨path, hd, _, _, _, _, _, _, hq⟩ := (ohp_in_iff c mac p e q h0).mp h
   subst hq
   refine ⟨?_, rfl, rfl, rfl, rfl, rfl, path, hd, rfl, rfl⟩
   simp [completed, secondHop, hopMac]
@@ -159,7 +172,7 @@ theorem ohp_reverse_accepted (cA cB : Cfg) (macA macB : Mac) (pA pB : Pkt) (eA e
     (hlink : decodeStage pB = some q1) :
     reverseHopOk macB 0 q2.info q2.second ∧ q2.second.consIngress = pB.ingress ∧
       reverseHopOk macA eA q2.info q2.first := by
-  obtain ⟨path, _, _, _, hn, _, hm, he, hq1⟩ := (ohp_out_iff cA macA pA eA q1 hA0).mp hA
+  obtain ⟨path, _, _, _, _, hn, _, hm, he, hq1⟩ := (ohp_out_iff cA macA pA eA q1 hA0).mp hA
   obtain ⟨hm2, hi2, _, _, _, _, path2, hd2, hinfo, hfirst⟩ := ohp_second_hop_valid cB macB pB eB q2 hB0 hB
   rw [hlink] at hd2
   cases hd2
@@ -185,16 +198,17 @@ def bfdSendPath (mac : Mac) (ifID ts : Nat) : Path :=
     configured neighbour of the link's interface they meet every condition of `ohp_out_iff`. -/
 theorem bfd_send_is_instance (c : Cfg) (mac : Mac) (p : Pkt) (ifID ts : Nat)
     (h0 : p.ingress = 0) (hd : decodeStage p = some (bfdSendPath mac ifID ts))
+    (hpl : p.payloadLen = p.dataLen - p.hdrBytes)
     (hs : p.srcIA = c.localIA) (hn : c.nb ifID ≠ 0) (hdst : p.dstIA = c.nb ifID) :
     process c mac p = .fwd ifID (issued (bfdSendPath mac ifID ts)) :=
-  (ohp_out_iff c mac p ifID _ h0).mpr ⟨_, hd, rfl, hs, hn, hdst, rfl, rfl, rfl⟩
+  (ohp_out_iff c mac p ifID _ h0).mpr ⟨_, hd, rfl, hpl, hs, hn, hdst, rfl, rfl, rfl⟩
 
 /-! Non-vacuity: with the identity as "MAC", AS 1 (interface 5 towards AS 2) issues a one-hop packet and
     AS 2 (interface 9 towards AS 1) completes it. -/
 def exRegion : Bytes := encodePath (bfdSendPath id 5 1000)
-def exOut : Pkt := { ingress := 0, srcIA := 1, dstIA := 2, hdrBytes := 68, addrLen := 24, dataLen := 76,
+def exOut : Pkt := { ingress := 0, srcIA := 1, dstIA := 2, hdrBytes := 68, addrLen := 24, dataLen := 76, payloadLen := 8,
                      region := exRegion, resolves := false }
-def exIn : Pkt := { ingress := 9, srcIA := 1, dstIA := 2, hdrBytes := 68, addrLen := 24, dataLen := 76,
+def exIn : Pkt := { ingress := 9, srcIA := 1, dstIA := 2, hdrBytes := 68, addrLen := 24, dataLen := 76, payloadLen := 8,
                     region := encodePath (issued (bfdSendPath id 5 1000)), resolves := true }
 
 example : process { localIA := 1, nbs := [(5, 2)] } id exOut = .fwd 5 (issued (bfdSendPath id 5 1000)) := by decide
@@ -202,5 +216,7 @@ example : process { localIA := 2, nbs := [(9, 1)] } id exIn =
     .fwd 0 (completed id 9 (issued (bfdSendPath id 5 1000))) := by decide
 -- a slack header (one line more than the path needs) is dropped
 example : process { localIA := 1, nbs := [(5, 2)] } id { exOut with hdrBytes := 72, dataLen := 80 } = .drop := by decide
+-- a PayloadLen that disagrees with the bytes after the header is dropped
+example : process { localIA := 1, nbs := [(5, 2)] } id { exOut with payloadLen := 9 } = .drop := by decide
 
 end Scion.C12
